@@ -592,6 +592,11 @@ class JsonWebEncryption:
         if sender_key is not None:
             sender_key = alg.prepare_key(sender_key)
 
+        aad = to_bytes(obj.get("protected", ""))
+        if "aad" in obj:
+            aad += b"." + to_bytes(obj["aad"])
+        aad = to_bytes(aad, "ascii")
+
         def _unwrap_with_sender_key_and_tag(ek, header):
             return alg.unwrap(enc, ek, header, key, sender_key, tag)
 
@@ -613,7 +618,12 @@ class JsonWebEncryption:
             for recipient in recipients:
                 header = JWEHeader(protected, unprotected, recipient["header"])
                 try:
-                    return unwrap_func(recipient["encrypted_key"], header)
+                    cek = unwrap_func(recipient["encrypted_key"], header)
+                    # An unwrap that does not fail is not a match yet: RSA1_5
+                    # decryption of a foreign encrypted key yields a random
+                    # key instead of an error. The content must authenticate.
+                    enc.decrypt(ciphertext, aad, iv, tag, cek)
+                    return cek
                 except Exception as e:
                     error = e
             else:
@@ -637,11 +647,6 @@ class JsonWebEncryption:
             # For any other JWE algorithm:
             # Don't provide authentication tag to .unwrap method
             cek = _unwrap_for_matching_recipient(_unwrap_without_sender_key_and_tag)
-
-        aad = to_bytes(obj.get("protected", ""))
-        if "aad" in obj:
-            aad += b"." + to_bytes(obj["aad"])
-        aad = to_bytes(aad, "ascii")
 
         msg = enc.decrypt(ciphertext, aad, iv, tag, cek)
 
